@@ -282,8 +282,9 @@ def write_evidence(rep, technique, assumptions):
         'violations': len(rep.violations),
     }
     ev['coverage'].update(rep.extra)
-    os.makedirs(os.path.join(ROOT, 'evidence'), exist_ok=True)
-    with open(os.path.join(ROOT, 'evidence', rep.pid + '.json'), 'w') as f:
+    outroot = os.environ.get('VERIF_OUT', ROOT)        # (seed-matrix runs write elsewhere)
+    os.makedirs(os.path.join(outroot, 'evidence'), exist_ok=True)
+    with open(os.path.join(outroot, 'evidence', rep.pid + '.json'), 'w') as f:
         json.dump(ev, f, indent=1)
 
 def contracts_for(spec, pid, kind='func'):
